@@ -25,11 +25,8 @@ import c01_gen  # noqa: E402  query generator (shared with C17)
 # plan rules whose statement is generated but whose proof is not finished yet: named in the
 # evidence, not counted as obligations
 UNPROVED_PLAN_RULES = set()
-# rules the translator is known not to be able to state (apply / subquery / vector index)
-KNOWN_UNTRANSLATABLE = {"avg", "pushdown-filter-apply-left", "in-to-exists", "exists-to-semi-apply", "not-exists-to-anti-apply",
-                        "left-outer-apply-to-inner-apply", "apply-to-join", "apply-filter-to-join", "pushdown-apply-filter",
-                        "pushdown-apply-proj", "pushdown-semi-apply-proj", "pushdown-anti-apply-proj", "pushdown-apply-group-agg",
-                        "pushdown-apply-scalar-agg", "pushdown-proj-apply", "vector-index-scan-1", "vector-index-scan-2", "vector-index-scan-3"}
+# rules the translator is known not to be able to state (an aggregate-level rule, vector index scans)
+KNOWN_UNTRANSLATABLE = {"avg", "vector-index-scan-1", "vector-index-scan-2", "vector-index-scan-3"}
 RULES_JSON = os.path.join(vlib.LEAN, "RlModel/Gen/rules.json")
 DOM = {"N": ["null", "n:0", "n:1", "n:-1", "n:2", "n:3", "n:-2"],
        "B": ["null", "b:true", "b:false"],
@@ -198,13 +195,13 @@ def run(ck):
         cand += ["C01.psound_" + r["id"], "C01.punsound_" + r["id"]]
     status = {}
     errs_all = {}
-    for mod, extra in (("RlModel.Thm.C01", ["drv_c01"]), ("RlModel.Thm.C01Plan", []), ("RlModel.Thm.C01PlanPerm", [])):
+    for mod, extra in (("RlModel.Thm.C01", ["drv_c01"]), ("RlModel.Thm.C01Plan", []), ("RlModel.Thm.C01PlanPerm", []), ("RlModel.Thm.C01Apply", [])):
         st, log, errs = vlib.check_lean_obligations(mod, cand, "RlModel", extra)
         for n, v in st.items():
             if n not in status or (v["status"] == "ok" and status[n]["status"] != "ok") or (status[n]["status"] == "missing" and v["status"] != "missing"):
                 status[n] = v
         errs_all.update(errs)
-    forb = vlib.lean_forbidden(vlib.lean_sources("RlModel.Thm.C01") + vlib.lean_sources("RlModel.Thm.C01Plan") + vlib.lean_sources("RlModel.Thm.C01PlanPerm"))
+    forb = vlib.lean_forbidden(vlib.lean_sources("RlModel.Thm.C01") + vlib.lean_sources("RlModel.Thm.C01Plan") + vlib.lean_sources("RlModel.Thm.C01PlanPerm") + vlib.lean_sources("RlModel.Thm.C01Apply"))
     obligations = {}
     refuted, broken = [], []
     prefuted, pbroken = [], []
@@ -240,7 +237,7 @@ def run(ck):
             pbroken.append(r)
     ck.add_obligations(obligations)
     ck.coverage["unproved"] = {
-        "not_translatable (apply/subquery/vector rules; covered by the differential run only)": [r["name"] for r in other_rules],
+        "not_translatable (avg, vector index rules; covered by the differential run only)": [r["name"] for r in other_rules],
         "translated, proof not finished (covered by the differential run only)": sorted(n for n in UNPROVED_PLAN_RULES if any(r["name"] == n for r in plan_rules) and ("pstmt_" + vlib.slug(n).replace("-", "_")) not in obligations),
     }
     ck.coverage["relative_to_contracts"] = {"C12 (scan order) / C13 (range scan) / C11 (merge join, sort agg = hash variants)": ["useless-order", "merge-join", "sort-agg", "filter-scan", "filter-scan-1"]}
@@ -558,7 +555,7 @@ def run(ck):
             ck.report("opt:on-off-differ:" + vlib.slug(c["sql"])[:60], "optimizer changes the answer of `%s` on %s (reference: %s; not explained by any recorded finding)" % (c["sql"], eng, refname), replay=replay)
     # every refuted plan rule must have been reproduced on the implementation (corpus cases do that)
     for r in prefuted:
-        sigs = [f["sig"] for f in ck.known.values() if f["property"] == "C01" and r["name"] in (f.get("exclude_rules") or [])]
+        sigs = [f["sig"] for f in ck.known.values() if f["property"] == "C01" and (r["name"] in (f.get("exclude_rules") or []) or f.get("rule") == r["name"])]
         if not any(sg in ck.known_seen for sg in sigs) and not any(v[0] in sigs for v in ck.violations):
             ck.report("refuted-not-reproduced:" + r["id"], "punsound_%s is proved in the model but no generated or corpus query reproduces it on the implementation" % r["id"],
                       replay={"theorem": "punsound_" + r["id"], "rule": r["sig"]}, found_input=False)
